@@ -20,7 +20,7 @@ API = D.API
 
 
 def F(x):
-    return Fraction(x).limit_denominator(1 << 20)
+    return Fraction(x)
 
 
 def _solve_task(task):
@@ -140,6 +140,54 @@ def stream_costs(cfgs):
     return [flat]
 
 
+def scan_n_advance(NG, SG, NL, SL):
+    """Planner-level *guide* (never a verdict on its own): evaluate the repo's
+    step-size function n_advance, if it exists with the known signature, on
+    every (n <= NG, s <= SG) and on the few-unit columns (n <= NL, s <= SL),
+    both trajectories, and return the points where the returned first step is
+    not an optimal one: i + T(i, s) + T(n - i, s - 1) != T(n, s).  Each
+    anomaly is then confirmed (or dismissed) by driving a real schedule."""
+    ms = common.repo_mod("multistage")
+    f = getattr(ms, "n_advance", None)
+    if f is None:
+        return None, 0
+    T = refs.binomial_total_steps
+    bad = []
+    n_eval = 0
+
+    def probe(n, s, traj):
+        try:
+            i = f(n, s, trajectory=traj)
+        except TypeError:
+            return "signature"
+        except Exception as e:  # noqa: BLE001
+            return f"raises {type(e).__name__}"
+        if not (isinstance(i, int) or hasattr(i, "__index__")):
+            return "type"
+        i = int(i)
+        if not 1 <= i <= n - 1:
+            return f"step {i}"
+        if i + T(i, s) + T(n - i, max(s - 1, 0) if n - i > 1 else 0) \
+                != T(n, s):
+            return f"step {i} is not optimal"
+        return None
+    for traj in ("maximum", "revolve"):
+        for n in range(2, NL + 1):
+            smax = SG if n <= NG else SL
+            for s in range(1, min(smax, n - 1) + 1):
+                n_eval += 1
+                r = probe(n, s, traj)
+                if r == "signature":
+                    return None, n_eval
+                if r is not None:
+                    bad.append((n, s, traj, r))
+    return bad, n_eval
+
+
+GUIDE = {"quick": dict(NG=300, SG=300, NL=4000, SL=4),
+         "thorough": dict(NG=900, SG=900, NL=20000, SL=5)}
+
+
 # ===========================================================================
 # C05
 # ===========================================================================
@@ -254,6 +302,32 @@ def check_c05(prop, tier):
                 if fwd is not None and fwd < want and err is None:
                     res.harness_error(f"{cfg!r}: executable stream below the "
                                       f"state-graph optimum ({fwd} < {want})")
+    # ---- guided deep confirmations (large n): the step-size function is
+    #      scanned far beyond the stream box; every anomaly is confirmed by
+    #      driving the corresponding Multistage schedule before it counts
+    G = GUIDE[tier]
+    bad, n_eval = scan_n_advance(**G)
+    res.bounds["planner_scan"] = dict(G)
+    res.counters["planner_scan_points"] = n_eval
+    if bad is None:
+        res.counters["planner_scan"] = "skipped (no n_advance with the known signature)"
+    else:
+        res.counters["planner_scan_anomalies"] = len(bad)
+        for n, s, traj, why in sorted(bad)[:6]:
+            cfg = D.Config("Multistage", (0, s, traj), n)
+            fwd, cnt, err = stream_cost(cfg)
+            want = refs.binomial_total_steps(n, s)
+            res.add(evaluations=1, traces_validated_against_impl=1)
+            if fwd is None or fwd != want:
+                rp = common.write_replay(prop, "Multistage_deep", {
+                    "property": prop, "kind": "c05_stream",
+                    "config": cfg.as_json(), "want": int(want), "got": fwd,
+                    "err": err})
+                res.violation({"cls": "Multistage",
+                               "code": "steps_exceed_optimum"},
+                              f"{cfg!r}: {fwd} forward steps, optimum is "
+                              f"{want} (found via the step-size scan: "
+                              f"n_advance({n}, {s}, {traj!r}) {why})", rp)
     res.cov["distinct_nontrivial"] = nontriv
     res.cov["rule"] = ("tier A: every (n,s) with n<=S solved on the full state "
                        "graph of M; library streams/helper for every (n,s) up "
